@@ -472,6 +472,26 @@ func propC10(c *Ctx) {
 		}
 	}
 	propTplMaps(c)
+	// variables that are literally called "if" / "unless": the bare '#' and '^' spellings are sections on those variables
+	for _, w := range []string{"unless", "if", "UNLESS", "If"} {
+		for _, mk := range []func() []*tnode{
+			func() []*tnode {
+				return []*tnode{{k: 's', text: w, open: "{{#" + w + "}}", close: "{{/" + w + "}}", kids: []*tnode{{k: 't', text: "body"}}}}
+			},
+			func() []*tnode {
+				return []*tnode{{k: 'i', text: w, open: "{{^" + w + "}}", close: "{{/" + w + "}}", kids: []*tnode{{k: 't', text: "body"}}}}
+			},
+			func() []*tnode {
+				return []*tnode{{k: 's', text: w, open: "{{#" + w + "}}", close: "{{/" + w + "}}", kids: []*tnode{{k: 'v', text: w, open: "{{" + w + "}}"}}}, {k: 't', text: "."},
+					{k: 's', text: "a", open: "{{#if a}}", close: "{{/if}}", kids: []*tnode{{k: 't', text: "A"}}}, {k: 'i', text: "a", open: "{{#unless a}}", close: "{{/unless}}", kids: []*tnode{{k: 't', text: "B"}}}}
+			},
+		} {
+			ast := mk()
+			for _, vars := range []map[string]string{{w: "1"}, {}, {strings.ToLower(w): "x", "a": "1"}, {w: ""}} {
+				runTplCase(c, ast, printTpl(ast), vars, "keyword-named-variable")
+			}
+		}
+	}
 	// accept / reject: every string over the lexeme alphabet up to a bounded length
 	maxL := 4
 	if c.Thorough {
